@@ -46,6 +46,11 @@ func (tpl replyTpl) wire4(req *dhcpv4.DHCPv4) []byte {
 		mods = append(mods, dhcpv4.WithOption(dhcpv4.OptGeneric(dhcpv4.GenericOptionCode(tpl.extra), val)))
 	}
 	rep, _ := dhcpv4.NewReplyFromRequest(req, mods...)
+	// siaddr is the next-server (boot) address a server chose to announce - often another host, which may well be
+	// one of the DHCP servers on the segment; it says nothing about which server sent the message
+	if tpl.yi%4 != 0 {
+		rep.ServerIPAddr = net.IP{10, 0, 0, 1 + tpl.yi%3}
+	}
 	switch tpl.kind {
 	case 5:
 		rep.TransactionID[0] ^= 0xff
